@@ -11,9 +11,9 @@ Author: Duy Nguyen Ta, Fan Jiang, Matthew Sklar, Varun Agrawal, and Frank Dellae
 """
 
 from pyparsing import Or  # type: ignore
-from pyparsing import (Keyword, Literal, OneOrMore, QuotedString, Suppress,
-                       Word, alphanums, alphas, nestedExpr, nums,
-                       originalTextFor, printables)
+from pyparsing import (Combine, Keyword, Literal, OneOrMore, Optional,
+                       QuotedString, Suppress, Word, alphanums, alphas,
+                       nestedExpr, nums, originalTextFor, printables)
 
 # rule for identifiers (e.g. variable names)
 IDENT = Word(alphas + '_', alphanums + '_') ^ Word(nums)
@@ -52,21 +52,21 @@ CONST, VIRTUAL, CLASS, STATIC, PAIR, TEMPLATE, TYPEDEF, INCLUDE = map(
         "#include",
     ],
 )
-ENUM = Keyword("enum") ^ Keyword("enum class") ^ Keyword("enum struct")
+ENUM = Keyword("enum") + Optional(Keyword("class") ^ Keyword("struct"))
 NAMESPACE = Keyword("namespace")
-BASIC_TYPES = map(
-    Keyword,
-    [
-        "void",
-        "bool",
-        "unsigned char",
-        "char",
-        "int",
-        "size_t",
-        "double",
-        "float",
-    ],
-)
+BASIC_TYPES = [
+    Keyword("void"),
+    Keyword("bool"),
+    # Two C++ tokens: any layout (or comments) may separate them.
+    Combine(Keyword("unsigned") + Keyword("char"),
+            joinString=" ",
+            adjacent=False),
+    Keyword("char"),
+    Keyword("int"),
+    Keyword("size_t"),
+    Keyword("double"),
+    Keyword("float"),
+]
 
 OPERATOR = Or(
     map(
